@@ -44,9 +44,38 @@ def unit(name, props, crate, module, *a, **kw):
     return _unit(name, props, crate, module, *a, **kw)
 
 
-def _unit(name, props, crate, module, desc="", functions=(), timeout=180, tier="quick", interesting=()):
+def _unit(name, props, crate, module, desc="", functions=(), timeout=180, tier="quick", interesting=(), heavy=False, rules=None, unwind=None, shape=None):
     return Obl(name, props, crate, module + "::" + name, tier=tier, timeout=timeout,
-               desc=desc, functions=functions, interesting=interesting)
+               desc=desc, functions=functions, interesting=interesting, heavy=heavy, rules=rules, unwind=unwind, shape=shape,
+               bucket=("unit-" + name if rules else ""))
+
+
+def printer_rules():
+    """per-loop bounds for the summary-printer end-to-end harnesses (kani/printer/summary.rs: MAXL=3, MAXC=2)"""
+    def f(nl, ml, ln):
+        return {
+            r"memchr::memchr::count_raw\.0": ln + 1,
+            r"^memchr::memchr\.0": ml + 1,
+            r"^memchr::memrchr\.0": ml + 1,
+            r"^memcmp\.0": 3,
+            r"lines::preceding_by_pos\.0": 2,
+            r"before_context_by_line\.0": 2,
+            r"after_context_by_line\.0": 2,
+            r"other_context_by_line\.0": nl + 1,
+            r"match_by_line_slow\.0": nl + 1,
+            r"SliceByLine.*::run\.0": 2,
+            r"LineIter.*fold": 3,
+            r"try_find_iter_at": 6,
+            r"write_all\.0": 2,
+            r"LineTables::any\.0": ln + 2,
+            r"LineTables::any\.1": 5,
+            r"LineTables::any\.2": 5,
+            r"LineTables::first_in_line\.0": 5,
+            r"LineTables::count_in_line\.0": 10,
+            r"LineTables.*find_at\.": 5,
+            r"check_summary\.0": 5,
+        }
+    return f
 
 
 MATCHER = "grep-matcher"
@@ -71,6 +100,21 @@ UNITS = [
          ["util::find_iter_at_in_context"], timeout=900),
     unit("c10_find_iter_unterminated_second", ["C10", "C19", "C09"], PRINTER, "util::verif_kani",
          "find_iter_at_in_context on an unterminated second line", ["util::find_iter_at_in_context"], timeout=900),
+    unit("c10_summary_quiet_stats", ["C10"], PRINTER, "summary::verif_kani",
+         "real searcher (slice, slow line path) + real SummarySink (Quiet, stats on, max_matches in {None,1,2} symbolic) on 'ax\\nby\\n' with a "
+         "symbolic per-line span table: match_count / stats.matched_lines == reported lines, stats.matches == matches inside them "
+         "(== what -o / JSON submatches enumerate), searches, searches_with_match, bytes_searched",
+         ["SummarySink::matched", "SummarySink::begin", "SummarySink::finish", "SummarySink::should_quit", "util::find_iter_at_in_context",
+          "Stats::add_*", "SliceByLine::run", "Core::match_by_line_slow"], timeout=1500, heavy=True, rules=printer_rules(), unwind=12,
+         shape=SH.from_bytes("p_axby", b"ax\nby\n")),
+    unit("c10_summary_quiet_stats_invert", ["C10"], PRINTER, "summary::verif_kani",
+         "same with --invert-match: reported lines are the non-matching ones, stats.matches == 0",
+         ["SummarySink::matched", "util::find_iter_at_in_context"], timeout=1500, heavy=True, rules=printer_rules(), unwind=12,
+         shape=SH.from_bytes("p_axby", b"ax\nby\n")),
+    unit("c10_summary_quiet_stats_unterminated", ["C10"], PRINTER, "summary::verif_kani",
+         "same on 'ax\\n\\nc' (blank line, unterminated last line)",
+         ["SummarySink::matched", "util::find_iter_at_in_context"], timeout=1500, heavy=True, rules=printer_rules(), unwind=12,
+         shape=SH.from_bytes("p_ax_c", b"ax\n\nc")),
     unit("c02_linebuffer_stream_cap1", ["C02"], SEARCHER, "line_buffer::verif_kani",
          "LineBuffer fill/consume/roll/grow over a FULLY SYMBOLIC <=4-byte source, symbolic read sizes 1..=2, initial capacity "
          "1 / 3 (eager growth): the exposed stream is exactly the source (no byte lost, duplicated, reordered), final offset = length",
